@@ -196,7 +196,12 @@ def other_rules(tier, rng):
     # trapezoid on [-1, 1], three integer nodes on [0, inf)
     hand = [("HandMadeSimpson[int nodes]", np.array([-1, 0, 1]), np.array([1.0, 4.0, 1.0]) / 3, (-1, 1)),
             ("HandMadeTrapezoid[int nodes]", np.array([-1, 1]), np.array([1.0, 1.0]), (-1, 1)),
-            ("HandMade[int nodes, half line]", np.array([0, 1, 2, 5]), np.array([0.5, 1.0, 2.0, 1.5]), (0, np.inf))]
+            ("HandMade[int nodes, half line]", np.array([0, 1, 2, 5]), np.array([0.5, 1.0, 2.0, 1.5]), (0, np.inf)),
+            # nodes that approach the singular end of the maps: the Jacobian there is FINITE but huge (beyond the 1e16 that
+            # trim_inf substitutes for infinity), the image still moderate - as for the outermost nodes of large
+            # Gauss / tanh-sinh rules
+            ("HandMade[nodes 1e-k from +1]", 1.0 - np.array([1.5, 1.0, 1e-3, 1e-5, 1e-6, 1e-8, 1e-10]),
+             np.array([0.5, 0.25, 0.125, 0.0625, 0.03125, 0.015625, 0.0078125]), (-1, 1))]
     for name, xs, ws, dom in hand:
         try:
             g = OneDGrid(xs, ws, dom)
@@ -617,6 +622,21 @@ def run_pair(out, inst, fenv, expo, rule_name, make_rule, tag, trim_value, direc
         judge_grid(out, lbl, esfx, inst.trees, inst.wtree, inst.decl, tenv, xs, ws, rdom, got, exc, trim, trim_value,
                    direction, case, tlc_grid)
         relations(out, f"transform_1d_grid:{lbl}{esfx}", tf, rule, snap, got, exc, case)
+        # a rule handed over WITHOUT a domain (OneDGrid's domain is optional): same nodes and weights, and nothing is
+        # known about the interval, so the transformed grid has no domain either ("the new domain is the ordered image
+        # of the old one")
+        if exc is None and trim in (True, None):
+            bare, exc0 = rtx.call(OneDGrid, xs.copy(), ws.copy())
+            if exc0 is None:
+                got0, exc0 = rtx.call(tf.transform_1d_grid, bare)
+                out.n += 1
+                key0 = f"transform_1d_grid:{lbl}{esfx}:rule-without-domain"
+                if exc0 is not None:
+                    out.viol.append((key0 + ":raises", f"transform_1d_grid of a OneDGrid built without a domain raised {type(exc0).__name__}: {exc0}", case))
+                elif got0.domain is not None:
+                    out.viol.append((key0 + ":domain", f"a rule without a domain came back with domain {got0.domain!r} (the image of its node span, not of an interval the rule belongs to)", case))
+                elif not (np.array_equal(got0.points, got.points, equal_nan=True) and np.array_equal(got0.weights, got.weights, equal_nan=True)):
+                    out.viol.append((key0 + ":values", "nodes / weights differ from those of the same rule handed over with its domain", case))
         try:
             p1 = np.asarray(got.points, float)
             w1 = np.abs(np.asarray(got.weights, float))
@@ -629,6 +649,10 @@ def run_pair(out, inst, fenv, expo, rule_name, make_rule, tag, trim_value, direc
         # Only for the default trim setting, finite nodes and a nan-free domain; the input weights are
         # made non-negative so that the two steps are judged separately.
         if not inverse or trim is False:
+            continue
+        if rule_name.startswith("HandMade[nodes 1e-k"):
+            # the wrapper evaluates 1 / tf.deriv(tf.inverse(r)): one ulp in the recovered x is a relative 1e-8 of the
+            # distance to the pole for these nodes - conditioning of that route, not what this clause judges
             continue
         if not (np.all(np.isfinite(p1)) and np.all(np.isfinite(w1)) and not any(math.isnan(v) for v in d1)) or np.any(p1 >= 1e15):
             continue
